@@ -242,7 +242,7 @@ PROPS = {
     "C17": {
         "n": {"quick": 1, "thorough": 1},
         "exhaustive": True,
-        "cone": ["Bytes", "Regex", "Generated", "Channel", "Network", "NetworkAbs", "NetworkLemmas", "Platform", "PlatformLemmas", "Replay", "NetworkTwins", "PlatformNav"],
+        "cone": ["Bytes", "Regex", "Generated", "Channel", "Network", "NetworkAbs", "NetworkLemmas", "Platform", "PlatformLemmas", "Replay", "NetworkTwins", "PlatformNav", "PlatformMerge"],
         "rx": True,
         "rule": "exhaustive: every advertised platform name and every embedded definition file (documentation example excluded) is loaded with "
                 "platform.NewPlatform / NewPlatformVariant; for network definitions the driver runs against a device built from the definition "
